@@ -134,8 +134,8 @@ class Prop(PropBase):
                 return z[sl, ...]
             if form == "tf_all" and z.ndim >= 2:
                 return z[sl, :]
-            if form == "tf_part" and z.ndim >= 2 and z.shape[1] >= 2:
-                return z[sl, 1:]
+            if form == "tf_part" and z.ndim >= 2 and z.shape[1] >= 1:
+                return z[sl, 0:z.shape[1]]      # explicit bounds, all channels kept (later ops broadcast over the sample shape)
             return z[sl]
         if op[0] == "fl":
             return pb.fast_len(z)
